@@ -616,36 +616,31 @@ Fixpoint snames_eqb (a b : list sname) : bool :=
   | _, _ => false
   end.
 
-(* a type without an EMPTY tuple inside.  (The code counts `Tuple[()]` as ONE bit in
-   _type_size while it has no bit names: UNMODELLED; the converter never sends one.) *)
-Fixpoint ty_ne (t : ty) : bool :=
-  match t with
-  | TTuple l => match l with [] => false | _ => true end && forallb ty_ne l
-  | _ => true
-  end.
-
-(* ... and whose sized components have at least 2 bits (every shipped sized type has): a name of
-   such a type never evaluates to a bare Symbol (Arg.to_exp) unless it is a bool or a tuple *)
+(* a type whose sized components have at least 2 bits (every shipped sized type has): a name of
+   such a type never evaluates to a bare Symbol (Arg.to_exp) unless it is a bool or a tuple.
+   Tuples of any length, the empty one included, are fine (since 861badb / 4042692) *)
 Fixpoint ty_good (t : ty) : bool :=
   match t with
   | TBool => true
-  | TTuple l => match l with [] => false | _ => true end && forallb ty_good l
+  | TTuple l => forallb ty_good l
   | _ => (2 <=? ty_size t)%nat
   end.
 
-(* an expression without an empty tuple `()` *)
-Fixpoint pexp_ne (e : pexp) : bool :=
+(* no subscript in e selects an EMPTY tuple component: for `u[0]` with u = ((), a) the code
+   returns (Tuple[()], Symbol("u.0")), ONE fabricated symbol for a value that has no bits *)
+Fixpoint sub_ne (G : env) (e : pexp) : bool :=
   match e with
-  | ETuple l => match l with [] => false | _ => true end && forallb pexp_ne l
-  | EConstTup l => match l with [] => false | _ => true end
-  | EBoolOp _ l => forallb pexp_ne l
-  | EUn _ a | EInt a | EFloat a => pexp_ne a
-  | EIf c t f => pexp_ne c && pexp_ne t && pexp_ne f
-  | ECmp _ a b | EBin _ a b => pexp_ne a && pexp_ne b
+  | ESub x p =>
+      match lookup G x with
+      | Some (t, _) => match sub_type t p with Some (TTuple []) => false | _ => true end
+      | None => true
+      end
+  | EBoolOp _ l | ETuple l => forallb (sub_ne G) l
+  | EUn _ a | EInt a | EFloat a => sub_ne G a
+  | EIf c t f => sub_ne G c && sub_ne G t && sub_ne G f
+  | ECmp _ a b | EBin _ a b => sub_ne G a && sub_ne G b
   | _ => true
   end.
-Definition stmt_ne (s : pstmt) : bool :=
-  match s with SAssign _ e | SReturn e | SExpr e => pexp_ne e | SRaise => true end.
 
 (* no definition reads a symbol that an EARLIER definition of the same list assigns:
    evaluating the list in order is then evaluating it simultaneously *)
@@ -667,7 +662,7 @@ Definition fresh_for (num : sname -> nat) (G : env) (x : ident) (ds : defs) : bo
                      || forallb (fun s => negb (existsb (Nat.eqb (num s)) (map fst ds))) (snd (snd yb))) G.
 
 (* binding the translated value r to the name x.  The side condition of the soundness theorems
-   is seq_ok alone (full = false).  With full = true also: the assigned symbol NUMBERS are
+   is seq_ok (full = false), with sub_ne on the statement's expression.  With full = true also: the assigned symbol NUMBERS are
    distinct and clobber no other binding — consequences of an injective numbering (P_Texp),
    evaluated by the correspondence run on the numbering table it uses *)
 Definition res_guard_g (full : bool) (num : sname -> nat) (G : env) (x : ident) (r : tres) : bool :=
@@ -677,8 +672,10 @@ Definition res_guard_g (full : bool) (num : sname -> nat) (G : env) (x : ident) 
 Definition stmt_guard_g (full : bool) (num : sname -> nat) (G : env) (rt : ty) (s : pstmt) : bool :=
   match s with
   | SAssign x e =>
+      sub_ne G e &&
       match trans_exp num G e with Some r => res_guard_g full num G x (regroup_value r) | None => true end
   | SReturn e =>
+      sub_ne G e &&
       match obind (trans_exp num G e) (ret_coerce rt) with
       | Some r => res_guard_g full num G ret_id (regroup_value r)
       | None => true
